@@ -5,4 +5,7 @@ impl From<IoError> for VibratoError {
     #[verifier::external_body]
     fn from(e: IoError) -> Self { unimplemented!() }
 }
-pub trait Read: Sized {}
+pub trait Read: Sized {
+    /// no contract: whatever bytes arrive, the parsers must be total on them
+    fn read_to_end(&mut self, buf: &mut Vec<u8>) -> (r: Result<usize, IoError>);
+}
